@@ -221,6 +221,25 @@ ok = ok and same('failing paths re-rooted', sorted(tx(tuple(f.path)) for rt in s
 return ok
 """
     out.append(mk_case("c18.add.path_modifiers", [("t", "int"), ("u1", "Union[int, bool, None]"), ("u2", "int")], body, pre=[f"BU({L}, t, u1, u2)"], stubs=["sym_repr"]))
+    # ... including rules of T about T's own root node (the empty path with a datum modifier), under one- and two-part roots
+    for rid, rsrc, pref, sub in [("one", "DataPath('a')", "('a',)", "doc['a']"), ("two", "DataPath('o', 'i')", "('o', 'i')", "doc['o']['i']"),
+                                 ("wild", "DataPath(MapValue(key=Key.equal_to('a')))", "('a',)", "doc['a']")]:
+        body = f"""
+doc = {{'a': {{'x': u1, 'y': u2}}, 'o': {{'i': [u1, u2, 3]}}, 'p': 0}}
+t0 = Rule(DataPath().length(), Value.equal_to(t))
+t1 = Rule(DataPath().dtype(), Value.equal_to(dict))
+t2 = Rule(DataPath(), Value.truthy())
+t3 = Rule(DataPath('x'), Value.is_instance(int))
+T = Schema([t0, t1, t2, t3])
+S = Schema([Rule(('p',), Value.equal_to(0))])
+S.add_schema(T, {rsrc})
+sub = {sub}
+sv, tv = S.validate(doc), T.validate(sub)
+ok = same('S judges what lies at R as T does (plus its own rule)', (sv.is_valid, sv.num_failures, sv.num_rules_tested), (tv.is_valid, tv.num_failures, tv.num_rules_tested + 1))
+ok = ok and same('failing paths re-rooted', sorted(tx(tuple(f.path)) for rt in sv.rule_tests for f in rt.failures), sorted(tx({pref} + tuple(f.path)) for rt in tv.rule_tests for f in rt.failures))
+return ok
+"""
+        out.append(mk_case(f"c18.add.root_modifiers.{rid}", [("t", "int"), ("u1", "Union[int, bool, None]"), ("u2", "int")], body, pre=[f"BU({L}, t, u1, u2)"], stubs=["sym_repr"]))
     # a schema added to itself
     body = """
 doc = {'a': {'p': u1, 'a': {'p': u2}}, 'p': u2}
